@@ -1,3 +1,9 @@
 //! Circuit layer checks (C04–C09, C15, C16, C18–C20): shared engines.
 pub mod e2;
 pub mod e6;
+pub mod ops_hash;
+pub mod ops_foreign;
+pub mod ops_ecc;
+pub mod zkir_gen;
+pub mod ops_native;
+pub mod regex_ref;
